@@ -26,7 +26,8 @@ Catalogue == <<
   << Col(<<115>>, 6, 0, 0) >>,                                                     \* 6: REQUIRED BYTE_ARRAY
   << Col(<<>>, 2, 0, 0), Col(<<195, 169>>, 1, 1, 0) >>,                            \* 7: empty name, non-ASCII name
   << Col(<<97>>, 0, 1, 0), Col(<<98>>, 1, 1, 0), Col(<<99>>, 2, 1, 0), Col(<<100>>, 4, 1, 0),
-     Col(<<101>>, 5, 1, 0), Col(<<102>>, 6, 1, 0), Col(<<103>>, 7, 1, 2) >>         \* 8: all 7 types, all OPTIONAL
+     Col(<<101>>, 5, 1, 0), Col(<<102>>, 6, 1, 0), Col(<<103>>, 7, 1, 2) >>,        \* 8: all 7 types, all OPTIONAL
+  << Col(<<111>>, 6, 1, 0) >>                                                      \* 9: OPTIONAL BYTE_ARRAY
 >>
 
 \* run-structured null patterns of length n: runs of lengths from RunLens alternating present/null
